@@ -16,6 +16,13 @@
 // become options of one App.Run (app.SetConfigure(cfg) first, unless the Configure is the App's own): the Initialize
 // of that segment is the one App.Run performs.
 // stdout for a history: {id, steps:[{out, log, gets}...], bound, detail}.
+//
+// A case with a "rounds" list RE-USES option values: the "pool" entries (set / add / setconfig with their loaders)
+// are built ONCE - one []configure.Loader slice and one app.SettingOption value each - and every round applies some
+// of them to a target: newapp (app.NewApp().Run(opts...)), sameapp (the previous App is started again with the
+// options), appcfg (a new App on the previous Configure: app.SetConfigure(cfg) first), newcfg / samecfg (a
+// configure.Default() of its own / the previous Configure, driven directly: SetLoaders(ls...) / AddLoaders(ls...)
+// with the pool's slices, then Initialize).  stdout: {id, rounds:[{out, log, gets}...]}.
 package main
 
 import (
@@ -70,7 +77,21 @@ type OpSpec struct {
 	Loaders []LoaderSpec `json:"loaders"`
 }
 
+type PoolSpec struct {
+	Op      string       `json:"op"` // set | add | setconfig
+	File    string       `json:"file"`
+	Loaders []LoaderSpec `json:"loaders"`
+	Spare   bool         `json:"spare"` // the loader slice has spare capacity (built with append) instead of len == cap
+}
+
+type RoundSpec struct {
+	Target string `json:"target"` // newapp | sameapp | appcfg | newcfg | samecfg
+	Uses   []int  `json:"uses"`   // indices into the pool, in the order the options are passed
+}
+
 type Case struct {
+	Pool   []PoolSpec  `json:"pool"`
+	Rounds []RoundSpec `json:"rounds"`
 	ID     int        `json:"id"`
 	OsArgs []string   `json:"osargs"`
 	Ops    []OpSpec   `json:"ops"`
@@ -89,6 +110,7 @@ type Out struct {
 	Detail string    `json:"detail"`
 	Log    []int     `json:"log"`
 	Steps  []StepOut `json:"steps,omitempty"`
+	Rounds []StepOut `json:"rounds,omitempty"`
 }
 
 // ---- loaders written by "the user" ------------------------------------------------------------
@@ -445,6 +467,124 @@ func runHistory(c Case) (out Out) {
 	return out
 }
 
+// runReuse builds every pool entry once and applies the same values round after round.
+func runReuse(c Case) (out Out) {
+	out = Out{ID: c.ID, Out: "ok"}
+	os.Args = append([]string{os.Args[0]}, c.OsArgs...)
+	userLog = nil
+	type built struct {
+		op   string
+		file string
+		ls   []configure.Loader
+		opt  app.SettingOption
+	}
+	pool := make([]built, len(c.Pool))
+	if p := hx.Guard(func() {
+		for i, ps := range c.Pool {
+			b := built{op: ps.Op, file: ps.File}
+			src := mkLoaders(ps.Loaders)
+			if ps.Spare {
+				b.ls = append(make([]configure.Loader, 0, len(src)+3), src...)
+			} else {
+				b.ls = make([]configure.Loader, len(src))
+				copy(b.ls, src)
+			}
+			switch ps.Op {
+			case "set":
+				b.opt = app.SetConfigLoader(b.ls...)
+			case "add":
+				b.opt = app.AddConfigLoader(b.ls...)
+			case "setconfig":
+				b.opt = app.SetConfig(ps.File)
+			default:
+				panic("bad pool op " + ps.Op)
+			}
+			pool[i] = b
+		}
+	}); p != "" {
+		out.Out = "panic"
+		out.Detail = "pool: " + short(p)
+		return out
+	}
+	var a *app.App
+	var cfg configure.Configure
+	for _, r := range c.Rounds {
+		so := StepOut{}
+		userLog = nil
+		var err error
+		p := hx.Guard(func() {
+			opts := func(first ...app.SettingOption) []app.SettingOption {
+				ops := append([]app.SettingOption{}, first...)
+				for _, i := range r.Uses {
+					ops = append(ops, pool[i].opt)
+				}
+				return ops
+			}
+			direct := func() {
+				for _, i := range r.Uses {
+					switch b := pool[i]; b.op {
+					case "set":
+						cfg.SetLoaders(b.ls...)
+					case "add":
+						cfg.AddLoaders(b.ls...)
+					default:
+						cfg.AddLoaders(loader.NewFileLoader(b.file))
+					}
+				}
+			}
+			switch r.Target {
+			case "newapp":
+				a = app.NewApp()
+				cfg = a.Configure
+				err = a.Run(opts()...)
+			case "sameapp":
+				err = a.Run(opts()...)
+			case "appcfg":
+				a = app.NewApp()
+				err = a.Run(opts(app.SetConfigure(cfg))...)
+			case "newcfg":
+				a = nil
+				cfg = configure.Default()
+				direct()
+				err = cfg.Initialize()
+			case "samecfg":
+				direct()
+				err = cfg.Initialize()
+			default:
+				panic("bad round target " + r.Target)
+			}
+		})
+		switch {
+		case p != "":
+			so.Out = "panic"
+			out.Detail = r.Target + ": " + short(p)
+		case err != nil:
+			so.Out = "err"
+			out.Detail = r.Target + ": " + short(err.Error())
+		default:
+			so.Out = "ok"
+		}
+		so.Log = takeLog()
+		if cfg != nil {
+			if p := hx.Guard(func() {
+				for _, path := range c.Paths {
+					v := cfg.Get(path)
+					if v == nil {
+						so.Gets = append(so.Gets, nil)
+					} else {
+						so.Gets = append(so.Gets, canon(v))
+					}
+				}
+			}); p != "" {
+				so.Gets = nil
+				out.Detail = "get: " + short(p)
+			}
+		}
+		out.Rounds = append(out.Rounds, so)
+	}
+	return out
+}
+
 func runChild(c Case) Out {
 	ctx, cancel := context.WithTimeout(context.Background(), 30*time.Second)
 	defer cancel()
@@ -482,7 +622,9 @@ func main() {
 	outs := make([]Out, 0, len(in.Cases))
 	for _, c := range in.Cases {
 		os.Args = []string{self}
-		if len(c.Steps) > 0 {
+		if len(c.Rounds) > 0 {
+			outs = append(outs, runReuse(c))
+		} else if len(c.Steps) > 0 {
 			outs = append(outs, runHistory(c))
 		} else if c.Child {
 			outs = append(outs, runChild(c))
